@@ -218,3 +218,88 @@ def expectedSafe (scenario rpc mode : String) : Bool :=
   | _, _, _ => true
 
 end Specter.C07
+
+namespace Specter.C07
+open Specter.Ring
+
+/-! ### repair tasks never touch a store -/
+
+def storeOf (net : Net) (n : Nat) : Option (List KEntry) := (net.get n).map (·.store)
+
+theorem storeOf_upd (net : Net) (n m : Nat) (f : Node → Node) (hf : ∀ nd, (f nd).store = nd.store) :
+    storeOf (net.upd n f) m = storeOf net m := by
+  unfold storeOf; rw [get_upd]
+  by_cases e : m = n
+  · subst e; cases hg : net.get m <;> simp [hf]
+  · simp [e]
+
+theorem notify_store (net : Net) (n p m : Nat) : storeOf (notify net n p) m = storeOf net m := by
+  unfold notify
+  cases hg : net.get n with
+  | none => rfl
+  | some nd =>
+    simp only
+    split
+    · rfl
+    · split
+      · rfl
+      · exact storeOf_upd _ _ _ _ (fun _ => rfl)
+
+theorem stabilize_store (net : Net) (n m : Nat) : storeOf (stabilize net n) m = storeOf net m := by
+  unfold stabilize
+  cases hg : net.get n with
+  | none => rfl
+  | some nd =>
+    simp only
+    cases hl : (stabilizeList net n nd.succs).map (cutAfterSelf n) with
+    | none => rfl
+    | some l =>
+      simp only
+      have base : storeOf (net.upd n fun nd => { nd with succs := l }) m = storeOf net m :=
+        storeOf_upd _ _ _ _ (fun _ => rfl)
+      split
+      · split
+        · rw [notify_store]; exact base
+        · exact base
+      · exact base
+
+theorem fixK_store (net : Net) (n k m : Nat) : storeOf (fixK net n k) m = storeOf net m := by
+  unfold fixK
+  split
+  · exact storeOf_upd _ _ _ _ (fun _ => rfl)
+  · rfl
+
+theorem fixFinger_store (net : Net) (n m : Nat) : storeOf (fixFinger net n) m = storeOf net m := by
+  unfold fixFinger
+  generalize List.range 48 = l
+  induction l generalizing net with
+  | nil => rfl
+  | cons a as ih => simp only [List.foldl_cons]; rw [ih, fixK_store]
+
+theorem checkPredecessor_store (net : Net) (n m : Nat) : storeOf (checkPredecessor net n) m = storeOf net m := by
+  unfold checkPredecessor
+  cases hg : net.get n with
+  | none => rfl
+  | some nd =>
+    simp only
+    split
+    · rfl
+    · split
+      · rfl
+      · split
+        · rfl
+        · exact storeOf_upd _ _ _ _ (fun _ => rfl)
+
+/-- **Background repair never moves, loses or creates data**: the store of every node is the same after
+any sequence of stabilize / fixFinger / checkPredecessor tasks of any nodes. Data only moves in the two
+hand-off primitives (`transferUp`, `transferDown`), whose exactness is C05. -/
+theorem repair_preserves_stores (tasks : List Task) (net : Net) (m : Nat) :
+    storeOf (tasks.foldl runTask net) m = storeOf net m := by
+  induction tasks generalizing net with
+  | nil => rfl
+  | cons t ts ih =>
+    simp only [List.foldl_cons]
+    rw [ih]
+    cases t <;> simp [runTask, stabilize_store, fixFinger_store, checkPredecessor_store]
+
+end Specter.C07
